@@ -77,6 +77,13 @@ def run_case(ctx, case):
     if after[0] != tuple(want_U):
         rec.violation("knot vector is not the old one minus the nodes", case, observed=ser(after[0]))
         return
+    if W is None and mode in ("roundtrip", "generic", "tolerant", "forced"):
+        newU = list(after[0])
+        fitn = sorted(set(newU)) if kv_info(newU)[0] != 0 else None
+        g = unit_matrix(rec, drv, case, "lsq.s2s", lambda: heavy.LeastSquare.spline2spline(tuple(start[0]), tuple(newU), None if fitn is None else tuple(fitn)),
+                        "lsq.s2s", list(start[0]), newU, fitn, multi=True)
+        unit_matrix(rec, drv, case, "ops.remove", lambda: heavy.Operations.knot_remove(tuple(start[0]), tuple(nodes)),
+                    "ops.remove", list(start[0]), list(nodes))
     if mode == "roundtrip":
         l3(rec, "rf.eq")
         v = drv.call("rf.eq", *curve_args(*orig), *curve_args(*after))
